@@ -32,7 +32,7 @@ func (*prop) Assumptions() []string {
 }
 func (*prop) MinDistinct(tier string) int64 {
 	if tier == "thorough" {
-		return 800
+		return 250
 	}
 	return 20
 }
